@@ -28,6 +28,9 @@ import LocustModel.Disk.ReadState
                                           (`evict_cache`); impl/model = per op `f<k>` (the stored values came back) | `a<k>` (all
                                           NULL) with k = files opened by that query (`QueryStats.files_opened`) | `E`;
                                           model = `runOps` of `Disk/ReadState.lean` from a fresh state; spec judges f/a only.
+    keys <U> <id> <last,…> :: <key,…>     catalogue of one partition after a real flush: model = `keyOf` of every `last_column`
+                                          (`all` for a single file); spec: keys distinct, no `/`/NUL, file name and the
+                                          temporary name of the atomic write ≤ 255 bytes
     echo <text>                           model = `?`, spec = text (API-level oracle computed by the harness)
 -/
 namespace LM.DrvC15
@@ -73,6 +76,18 @@ def judgeSan (t r : Name) : String :=
   else if r.isEmpty then "BAD empty directory name"
   else if r.head? == some 45 && r.length < 66 then "BAD leading dash outside the hash form"
   else "OK"
+
+/-- The oracle for the keys of one partition: pairwise distinct, one path component each, and both the file name
+    `{:05}_{key}.part` and the temporary name of the atomic write (`path.with_extension(".INCOMPLETE")`, i.e.
+    `{:05}_{key}..INCOMPLETE`, 7 bytes longer) fit the 255-byte file-name limit. -/
+def judgeKeys (id : Nat) (keys : List Name) : String :=
+  if keys.eraseDups.length ≠ keys.length then "BAD two files of one partition share a key"
+  else match keys.find? (fun k => k.contains 47 || k.contains 0) with
+    | some _ => "BAD key contains a path separator or NUL"
+    | none =>
+      match keys.find? (fun k => byteLen (partitionFilename id k) + 7 > 255) with
+      | some k => s!"BAD file name of {byteLen (partitionFilename id k) + 7} bytes (key {byteLen k} bytes) exceeds the 255-byte limit"
+      | none => "OK"
 
 def parseParts (s : String) : Option (List (Nat × Name)) :=
   parseList (fun s => match s.splitOn ":" with
@@ -226,6 +241,15 @@ def step (line0 : String) : String :=
           (if clash then "clash" else "ok") ++ "\t" ++
             (if clash then "BAD two tables contend for one path" else "ok")
       | _, _, _ => "bad-op\tbad-op"
+  | ["keys", u, id, lasts] =>
+      -- the catalogue of a partition written by a real flush: `last_column` of every file :: its `subpartition_key`
+      match parseU u, id.toNat?, parseNameList? lasts, parseNameList? impl with
+      | some U, some id, some ls, some ks =>
+          let model := match ls with
+            | [_] => [allKey]
+            | _ => ls.map (keyOf shaName U)
+          showList showName model ++ "\t" ++ judgeKeys id ks
+      | _, _, _, _ => "bad-op\tbad-op"
   | "echo" :: rest => "?\t" ++ " ".intercalate rest
   | _ => "bad-op\tbad-op"
 
